@@ -80,6 +80,9 @@ pub fn probe_known(ctx: &Ctx, key: &str) -> Option<bool> {
     if key.starts_with("C04/") {
         return c04::probe_known(key);
     }
+    if key.starts_with("C03/") {
+        return c03::probe_known(key);
+    }
     if key.starts_with("C15/") {
         return c15::probe_known(key);
     }
@@ -90,10 +93,10 @@ pub fn probe_known(ctx: &Ctx, key: &str) -> Option<bool> {
 }
 
 /// Second leg of a build-profile differential (run by the release binary).
-pub fn leg(prop: &str, seed: u64, n: u64, _rest: &[String]) {
+pub fn leg(prop: &str, seed: u64, n: u64, rest: &[String]) {
     match prop {
         "C04" => c04::leg(seed, n),
-        "C14" => c14::leg(seed, n),
+        "C14" => c14::leg(seed, n, rest.iter().any(|a| a == "reverse")),
         _ => {}
     }
 }
@@ -103,6 +106,7 @@ pub fn exec_custom_journal(v: &Value) -> Result<(), String> {
     match v.get("kind").and_then(|x| x.as_str()).unwrap_or("") {
         "c06-closed" => c06::exec_journalled(v),
         "c13" => c13::exec_journalled(v),
+        "c03-deep" => c03::exec_deep(v),
         "c20" => c20::exec_journalled(v),
         _ => Err("unknown journal kind".into()),
     }
